@@ -250,6 +250,13 @@ req0_pipe_close(void *arg)
 	while ((ctx = nni_list_first(&p->contexts)) != NULL) {
 		nni_list_remove(&p->contexts, ctx);
 		nng_aio *aio;
+		if (ctx->req_msg == NULL) {
+			// This request was already answered.  Losing the pipe
+			// it went out on must not disturb the context: a reply
+			// not yet received stays available, and nothing needs
+			// to be reset or resent.
+			continue;
+		}
 		if (ctx->req_retry <= 0) {
 			// If we can't retry, then just cancel the operation
 			// altogether.  We should only be waiting for recv,
@@ -262,7 +269,7 @@ req0_pipe_close(void *arg)
 				req0_ctx_reset(ctx);
 				ctx->conn_reset = true;
 			}
-		} else if (ctx->req_msg != NULL) {
+		} else {
 			// Reset the retry time to make it expire immediately.
 			// Also move this immediately to the resend queue.
 			// The timer should still be firing, so we don't need
